@@ -2380,6 +2380,46 @@ func repoResolveHandler(c web.C, w http.ResponseWriter, r *http.Request) {
 		newParents[i] = dvid.NilUUID
 	}
 
+	// Check the parents and data instances before anything is changed: conflict deletions create
+	// and commit new versions, which a request refused later on (e.g. by the merge) would leave behind.
+	repoRoot, err := datastore.GetRepoRoot(uuid)
+	if err != nil {
+		BadRequest(w, r, err)
+		return
+	}
+	seenParents := make(map[dvid.UUID]struct{}, numParents)
+	for _, parent := range oldParents {
+		if _, found := seenParents[parent]; found {
+			BadRequest(w, r, "parent %s is listed more than once", parent)
+			return
+		}
+		seenParents[parent] = struct{}{}
+		parentRoot, err := datastore.GetRepoRoot(parent)
+		if err != nil {
+			BadRequest(w, r, err)
+			return
+		}
+		if parentRoot != repoRoot {
+			BadRequest(w, r, "parent %s is not a version of repo %s", parent, repoRoot)
+			return
+		}
+		locked, err := datastore.LockedUUID(parent)
+		if err != nil {
+			BadRequest(w, r, err)
+			return
+		}
+		if !locked {
+			BadRequest(w, r, "parent %s must be committed before it can be merged", parent)
+			return
+		}
+	}
+	for _, name := range jsonData.Data {
+		if _, err := datastore.GetDataByUUIDName(uuid, name); err != nil {
+			BadRequest(w, r, err)
+			return
+		}
+	}
+
 	// Iterate through all k/v for given data instances, making sure we find any conflicts.
 	// If any are found, remove them with first UUIDs taking priority.
 	for _, name := range jsonData.Data {
